@@ -19,7 +19,7 @@ VARIABLES l,
 tvars == <<vars, l, prev, qattr, qhist, cmem, cdisk>>
 CT == INSTANCE CardsTrack WITH MaxCards <- 0, Times <- {}, c <- 0
 MQ == INSTANCE Mv2Query
-Snap == [exists |-> exists, frames |-> frames, pend |-> pend, tseq |-> ticket.seq]
+Snap == [exists |-> exists, frames |-> frames, pend |-> pend, tseq |-> ticket.seq, tdseq |-> ticket.d.seq]
 
 \* a checked observation: in a diagnosis run a failing one is reported and masked
 Chk(name, cond) == IF cond THEN TRUE ELSE (Debug /\ PrintT(<<"MISMATCH", l, name>>))
@@ -76,6 +76,8 @@ ObservedHandle(o) ==
                THEN PrintT(<<"DEVIATION", l, "D24_payload_end_beyond_capacity">>)
                ELSE Chk("payload_end", FALSE))
        /\ Chk("ticket", ticket'.seq = o.ticket.seq /\ ticket'.cap = o.ticket.cap)
+       /\ Chk("ticket.verified", Has(o.ticket, "verified") => o.ticket.verified = ticket'.ver)      \* C25: only an authentic ticket marks the memory verified
+       /\ Chk("ticket.binding", Has(o, "bound") => o.bound = ticket'.mem)
        /\ Chk("capacity", o.stats.cap = Capacity')
        /\ Chk("stats.count", o.stats.frame_count = o.count)
        /\ Chk("frame.blob", (o.full /\ Has(o, "blob_interleaved_ok")) => o.blob_interleaved_ok)   \* C07: concurrent blob readers
@@ -94,14 +96,14 @@ ResErr(name) == ~Ev.res.ok /\ Has(Ev.res, "err") /\ Ev.res.err = name
 Matches == Chk("result", IF last'.res = "ok" THEN ResOk ELSE ResErr(last'.res))
 
 (* --------------------------------- events -------------------------------- *)
-TraceInit == l = 1 /\ Init /\ prev = [exists |-> "no", frames |-> <<>>, pend |-> <<>>, tseq |-> 0]
+TraceInit == l = 1 /\ Init /\ prev = [exists |-> "no", frames |-> <<>>, pend |-> <<>>, tseq |-> 0, tdseq |-> 0]
              /\ qattr = EmptyMap /\ qhist = EmptyMap /\ cmem = <<>> /\ cdisk = <<>>
 
 TReset == /\ IsEvent("reset")
           /\ exists' = "no" /\ frames' = <<>> /\ pend' = <<>>
           /\ wR' = R0 /\ wh' = 0 /\ wpb' = 0 /\ wapc' = 0 /\ wseq' = 0 /\ wcseq' = 0
           /\ hdl' = "none" /\ snap' = <<>> /\ dirty' = FALSE /\ pins' = 0 /\ noAuto' = FALSE
-          /\ ticket' = [seq |-> 0, cap |-> 0] /\ cpe' = 0 /\ acked' = <<>>
+          /\ ticket' = WithD(Tk(0, 0, 0, FALSE), Tk(0, 0, 0, FALSE)) /\ cpe' = 0 /\ acked' = <<>>
           /\ last' = Obs("init", "ok", 0)
 
 TCreate == IsEvent("create") /\ Create /\ Matches /\ Observed(Ev.obs)
@@ -180,6 +182,19 @@ TVacuum == /\ IsEvent("vacuum")
 TTicket == /\ IsEvent("ticket")
            /\ ApplyTicket(Ev.args.seq, IF Has(Ev.args, "cap") THEN Ev.args.cap ELSE 0)
            /\ Matches /\ Observed(Ev.obs)
+
+\* C25, signed tickets.  The harness signs the canonical payload with a key pair whose public half the crate is told to
+\* trust (hook verif::set_ticket_pubkey) and then tampers as the scenario says; `authentic` = nothing was tampered with.
+\* A rejected ticket may carry either error; it must change nothing (Reject + Observed).
+TSignedTicket == /\ IsEvent("signed_ticket")
+                 /\ ApplySigned(Ev.args.seq, IF Has(Ev.args, "cap") THEN Ev.args.cap ELSE 0, Ev.x.mem, Ev.x.authentic)
+                 /\ Chk("ticket.signed", IF last'.res = "ok" THEN ResOk
+                                          ELSE ~Ev.res.ok /\ Has(Ev.res, "err") /\ Ev.res.err \in {"TicketSignatureInvalid", "TicketSequence"})
+                 /\ Observed(Ev.obs)
+TBindOnly == IsEvent("bind_only") /\ BindOnly(Ev.args.mem) /\ Matches /\ Observed(Ev.obs)
+TBind == /\ IsEvent("bind")
+         /\ Bind(Ev.args.mem, Ev.args.seq, IF Has(Ev.args, "cap") THEN Ev.args.cap ELSE 0) /\ Matches /\ Observed(Ev.obs)
+TUnbind == IsEvent("unbind") /\ Unbind /\ Matches /\ Observed(Ev.obs)
 
 TBeginBatch == /\ IsEvent("begin_batch")
                /\ BeginBatch(Has(Ev.args, "no_auto") /\ Ev.args.no_auto) /\ Matches /\ Observed(Ev.obs)
@@ -262,7 +277,7 @@ TCrash ==
           THEN Chk("crash.open", prev.exists = "no")      \* only a crash inside create may leave nothing to open
           ELSE /\ Chk("crash.frames", CrashAllowed(e.obs))
                /\ Chk("crash.second", e.second.open.ok /\ e.second_same)             \* C04: a second open changes no frame
-               /\ Chk("crash.ticket", e.obs.ticket.seq \in {prev.tseq, ticket.seq})
+               /\ Chk("crash.ticket", e.obs.ticket.seq \in {prev.tseq, ticket.seq, prev.tdseq, ticket.d.seq})
      /\ (Has(e, "doctor") =>
            LET d == e.doctor IN
            /\ Chk("crash.doctor.panic", ~Panicked(d.first) /\ ~Panicked(d.second) /\ ~Panicked(d.open) /\ ~Panicked(d.verify))
@@ -299,7 +314,7 @@ TCorrupt ==
             Chk("corrupt.verify", TableEqOrErr(frames, e.ro.obs) \/ TableEqOrErr(tab, e.ro.obs)))
 
 TraceStep == \/ TReset \/ TCreate \/ TCommit \/ TOpen \/ TOpenRO \/ TClose \/ TAbandon
-             \/ TPut \/ TUpdate \/ TDelete \/ TVacuum \/ TTicket \/ TBeginBatch \/ TEndBatch \/ TCommitSkip \/ TFinalize
+             \/ TPut \/ TUpdate \/ TDelete \/ TVacuum \/ TTicket \/ TSignedTicket \/ TBindOnly \/ TBind \/ TUnbind \/ TBeginBatch \/ TEndBatch \/ TCommitSkip \/ TFinalize
              \/ TTimeline \/ TByUri \/ TVecSet \/ TVerify \/ TDoctor
              \/ TBroken
 
